@@ -217,6 +217,9 @@ pub fn check(case: &Case) -> Verdict {
         return Verdict::Reject("searcher selected line mode (covered by C02)");
     }
     let input = &case.input.0;
+    if gen::starts_with_bom(input) {
+        return Verdict::Reject("input starts with a byte-order mark (transcoding is C17's subject)");
+    }
     let term = case.cfg.term;
     let lines = model::split_lines(input, term.byte());
     let ma = enumerate_matches(&m, input, false);
